@@ -237,4 +237,60 @@ example : rtWF ⟨false, false⟩ 12 [[(4, [0x40, 1, 0x0c]), (3, [0x42, 1, 1, 2]
 example : rtWF ⟨true, false⟩ 20 [[(4, [0x40, 1, 0x0c]), (3, [0x42, 1, 1, 2])]] = true ∧
     rtKF ⟨true, false⟩ 20 [[(0, [0x40, 1, 0x0c])]] = false := by decide
 
+/-! ## c14_rt_flip — the exported options set by hand between calls -/
+
+/-- the full per-call statement: `AddDONL` and `SkipAggregation` are exported fields, a caller may
+    set them between `Payload` calls on the same payloader.  For ANY sequence of (options, frame)
+    calls at an MTU ≥ 4 (≥ 6 for the calls made with AddDONL) and ANY value `d` of the DONL counter
+    the payloader carries into the first call: every call's payloads — parsed by a receiver told
+    that call's DONL setting — satisfy `C14.callOk` with that call's options (≤ MTU, decode to what
+    is on the wire, RFC 7798 shape, IsPartitionHead, reassembly yields the call's units in order). -/
+def c14_rt_flip_full : Prop :=
+  ∀ (mtu d : UInt16) (calls : List RtCall),
+    rtWFF mtu calls = true → C14.rtOkF mtu calls (rtObsF mtu d calls) = true
+
+/-- `c14_rt_flip_full` outside the region of the known finding `c14_donl_fu`, call by call (`rtKFF`:
+    some call is made with AddDONL and fragments a unit; calls made without AddDONL may fragment).
+    `c14_roundtrip_partial` is the instance `d = 0`, all options equal (`c14_rt_flip_const`). -/
+theorem c14_rt_flip_partial (mtu d : UInt16) (calls : List RtCall)
+    (hwf : rtWFF mtu calls = true) (hreg : rtKFF mtu d calls = false) :
+    C14.rtOkF mtu calls (rtObsF mtu d calls) = true := by
+  simp only [rtWFF, List.all_eq_true, Bool.and_eq_true, decide_eq_true_eq] at hwf
+  exact rt_calls mtu calls hwf d hreg
+
+/-- what `c14.rt` evaluates on a history with constant options is what it evaluated before the
+    options became per call: observation, hypotheses, region and predicate coincide -/
+theorem c14_rt_flip_const (cfg : Cfg) (mtu : UInt16) (frames : List (List (Nat × Bytes)))
+    (os : List (Option (List C14.PktObs))) :
+    rtObsF mtu 0 (frames.map fun f => (cfg, f)) = rtObs cfg mtu frames ∧
+    rtKFF mtu 0 (frames.map fun f => (cfg, f)) = rtKF cfg mtu frames ∧
+    (frames ≠ [] → rtWFF mtu (frames.map fun f => (cfg, f)) = rtWF cfg mtu frames) ∧
+    C14.rtOkF mtu (frames.map fun f => (cfg, f)) os = C14.rtOk cfg mtu frames os :=
+  ⟨rtObsF_const cfg mtu 0 frames, rtKFF_const cfg mtu 0 frames, rtWFF_const cfg mtu frames,
+   rtOkF_const cfg mtu frames os⟩
+
+/-- the known finding is still there with per-call options (the witness of `c14_donl_fu_witness` as
+    a one-call history), so the full statement is false -/
+theorem c14_rt_flip_full_false : ¬ c14_rt_flip_full := by
+  intro h
+  have := h 6 0 [(⟨true, false⟩, [(0, [0x4E, 0x06, 0x02, 0x03])])] (by decide)
+  exact absurd this (by decide)
+
+/-- non-vacuity: MTU 12, a payloader whose DONL counter stands at 7.  Call 1 with AddDONL sends one
+    unit (DONL 7); the caller clears AddDONL and sets SkipAggregation, call 2 fragments a 15-byte
+    unit into two FUs without DONL; the caller sets AddDONL again, call 3 sends one unit with DONL 8
+    (the counter is carried across the calls made without AddDONL).  The hypotheses hold, the history
+    is outside the region, and the payloads are as written. -/
+example :
+    let calls : List RtCall :=
+      [(⟨true, false⟩, [(0, [0x40, 1, 0x0c])]),
+       (⟨false, true⟩, [(0, [0x26, 1, 1, 2, 3, 4, 5, 6, 7, 8, 9, 10, 11, 12, 13])]),
+       (⟨true, false⟩, [(0, [0x44, 1, 9])])]
+    rtWFF 12 calls = true ∧ rtKFF 12 7 calls = false ∧
+    rtPayloadsF 12 7 calls =
+      [[[0x40, 1, 0, 7, 0x0c]],
+       [[0x62, 1, 0x93, 1, 2, 3, 4, 5, 6, 7, 8, 9], [0x62, 1, 0x53, 10, 11, 12, 13]],
+       [[0x44, 1, 0, 8, 9]]] := by
+  decide
+
 end Rtp.Props.C14
